@@ -180,6 +180,31 @@ func C13(p *core.Prog, rep *core.Report) {
 	ps1SyncClose(p, rep)
 	ps2Impls(p, rep)
 	ps3Rotate(p, rep)
+	ps8(p, rep, ps8Scope{
+		name: "flush",
+		funcs: func(fn *ssa.Function) bool {
+			n := core.RecvNamed(fn)
+			if n == p.R.DB && (fn.Name() == "Close" || fn.Name() == "Sync") {
+				return true
+			}
+			return (n == p.R.DataFile || n == p.R.FileIO || n == p.R.MMap) && (fn.Name() == "Close" || fn.Name() == "Sync")
+		},
+		source: func(fn *ssa.Function, ci ssa.CallInstruction) bool {
+			c := ci.Common()
+			if c.IsInvoke() {
+				return c.Method == p.R.RWSync || c.Method == p.R.RWClose
+			}
+			f := c.StaticCallee()
+			if f == nil {
+				return false
+			}
+			if f.Name() == "Sync" || f.Name() == "Close" || f.Name() == "Flush" || f.Name() == "Unmap" || f.Name() == "Truncate" {
+				return f.String() != "(*github.com/gofrs/flock.Flock).Close"
+			}
+			return false
+		},
+		degrade: map[string]string{},
+	})
 	rep.Assumptions = append(rep.Assumptions,
 		"(*os.File).Sync and mmap.MMap.Flush make previously written bytes durable when they return nil (OS contract)",
 		"INV-ACTIVE: DB.activeFile is non-nil on an open database (set by Open before it returns)",
